@@ -99,6 +99,13 @@ Theorem raw_roundtrip_controlled_by : forall rows bases required g g' r cs,
 Proof. exact raw_roundtrip_controlled. Qed.
 Print Assumptions raw_roundtrip_controlled_by.
 
+Example raw_roundtrip_controlled_by_nonvacuous :
+  find_row (gcls ex_rx) ex_rows = Some ex_RX /\ rcb ex_RX = CBGate /\ String.eqb (gcls ex_rx) "M" = false
+  /\ gcontrols ex_rx = [] /\ [0; 1] <> [] /\ memZ (Z.of_nat (length [0; 1])) (rdispatch ex_RX) = false
+  /\ nodupZ [0; 1] = true /\ overlapZ (gtargets ex_rx) [0; 1] = false
+  /\ from_dict ex_rows ex_bases (raw ex_required ex_rx) = OK ex_rx /\ raw_rt_ok (OK ex_rx) ex_rx.
+Proof. exact ex_controlled_hyp. Qed.
+
 Theorem raw_roundtrip_refuted_Align : exists g g',
   construct ex_bases ex_Align [VA (AInt 1); VA (AInt 3)] [] = OK g
   /\ from_dict ex_rows ex_bases (raw ex_required g) = OK g'
